@@ -191,10 +191,11 @@ def run(ck):
         "'=*' glob matching and negate=True are outside the property",
     ]
     # ---- 1. the design: PMS order is a total preorder, operators agree (TLC, exhaustive)
-    ck.laws("Version_Laws", cfg_text=f"CONSTANT Vers <- {gram_mc}\n", label=f"Laws:Version_Laws({gram_mc})", timeout=1500)
-    cfg = f"SPECIFICATION Spec\nCONSTANT Vers <- {gram_mc}\n" + "".join(f"INVARIANT {x}\n" for x in MC_INVS) + "PROPERTY Monotone\n"
-    ck.mc("Version_MC", cfg_text=cfg, workers=4, label=f"MC:Version_MC({gram_mc}) all triples", timeout=2400, heap="6g")
-    ck.exhaustive = True
+    if not ck.replay_case:  # (a replay only re-executes and re-judges the recorded pair)
+        ck.laws("Version_Laws", cfg_text=f"CONSTANT Vers <- {gram_mc}\n", label=f"Laws:Version_Laws({gram_mc})", timeout=1500)
+        cfg = f"SPECIFICATION Spec\nCONSTANT Vers <- {gram_mc}\n" + "".join(f"INVARIANT {x}\n" for x in MC_INVS) + "PROPERTY Monotone\n"
+        ck.mc("Version_MC", cfg_text=cfg, workers=4, label=f"MC:Version_MC({gram_mc}) all triples", timeout=2400, heap="6g")
+        ck.exhaustive = True
 
     R = Runner()
     CH = 40000
@@ -244,7 +245,7 @@ def run(ck):
         ck.sample(state["keep"])
         # ---- 3. code -> spec: random versions
         r = rng(1)
-        for n in range(ck.pick(3000, 120000)):
+        for n in range(ck.pick(3000, 60000)):
             a = gen_version(r)
             x = r.random()
             b = mutate(r, a) if x < 0.5 else mutate(r, mutate(r, a)) if x < 0.75 else gen_version(r)
